@@ -74,7 +74,8 @@ fn node_is_terminal(node: &Node) -> bool {
 }
 
 fn recover_selected_text_inline_divert(selected_text: &str) -> Option<(String, String)> {
-    let (text, target) = selected_text.rsplit_once("->")?;
+    // (an arrow inside braces or parentheses, as in `{TURNS_SINCE(-> knot)}`, is not a divert)
+    let (text, target) = crate::inline::split_inline_divert(selected_text)?;
     let target = target.trim();
     if target.is_empty() || target.contains(' ') {
         return None;
